@@ -327,7 +327,14 @@ class CaseGen:
         r = self.r; s = self.slots[i]; t = s.text; L = len(t); cap = max(s.cap or 0, L)
         c = r.weighted([('push', 4), ('push_str', 5), ('reserve', 6), ('shrink_to', 8), ('shrink_to_fit', 3), ('clear', 2), ('truncate', 3),
                         ('clone', 4), ('drop', 2), ('insert_str', 2), ('remove', 2), ('extend_strs', 1)])
-        if c == 'push':
+        if L == 0 and cap >= 100000 and r.chance(1, 2):
+            # an emptied big buffer asked for more than any allocator gives (but below the 2^56 limit of the crate)
+            c = 'reserve_refused'
+        elif L > 0 and r.chance(1, 8):
+            c = 'clear'
+        if c == 'reserve_refused':
+            self.emit(self.mode(), 'reserve', i, r.pick([1 << 50, 1 << 40, (1 << 56) - 17, cap + (1 << 30)]))
+        elif c == 'push':
             self.emit(self.mode(), 'push', i, 97); s.text = t + b'a'; s.cap = max(cap, L + 1)
         elif c == 'push_str':
             n = r.pick([1, 10, 1000, max(1, cap - L), max(1, cap - L + 1), (1 << 20) + 1]); x = huge_text(r, n)
